@@ -256,6 +256,37 @@ fn run_m<T: Fl>(c: &MCase, lx: &mut Local) {
             hash_of(&obs)
         });
     }
+    // the same on 2-D inputs that are not contiguous in memory (every second column of a wider array, and
+    // its transpose): the two forms must traverse the elements in the same order
+    if xs.len() >= 4 && xs.len() % 2 == 0 {
+        lx.single(|lx| {
+            let rows = 2;
+            let cols = xs.len() / 2;
+            let mut wide = ndarray::Array2::from_elem((rows, 2 * cols), T::of(777.0));
+            for i in 0..rows {
+                for j in 0..cols {
+                    wide[[i, 2 * j]] = xs[i * cols + j];
+                }
+            }
+            let mut obs = Vec::new();
+            for tr in [false, true] {
+                let v0 = wide.slice(ndarray::s![.., ..;2]);
+                let v = if tr { v0.t() } else { v0.view() };
+                for p in [2u16, 3, 4, 7] {
+                    if let Ok(Ok(ms)) = guarded(|| v.central_moments(p)) {
+                        for k in 0..=p.min(ms.len() as u16 - 1) {
+                            if let Ok(Ok(s1)) = guarded(|| v.central_moment(k)) {
+                                let same = s1.bits_() == ms[k as usize].bits_() || (s1.is_nan() && ms[k as usize].is_nan());
+                                lx.check(same, "C18/central-moments-vs-single", || format!("[{}] on a strided 2-D view (transposed: {}): central_moments({})[{}] = {:?} but central_moment({}) = {:?} on {:?} (not bit-identical)", T::NAME, tr, p, k, ms[k as usize], k, s1, xs));
+                            }
+                        }
+                        obs.push(ms.iter().map(|m| m.bits_()).collect::<Vec<_>>());
+                    }
+                }
+            }
+            hash_of(&obs)
+        });
+    }
 }
 
 #[derive(Debug, Clone)]
@@ -358,7 +389,11 @@ fn run_axis(c: &ACase, lx: &mut Local) {
                         lx.within(if v1 == fv[j] { 0.0 } else { (v1 - fv[j]).abs() }, bv, "C18/weighted-var-axis-vs-lane", || format!("weighted_var_axis(ddof {}) lane {} = {:e} but weighted_var of the lane = {:e} (tolerance {:e}): {:?}", ddof, j, fv[j], v1, bv, c));
                         let bsd = if v1 > 0.0 { bv / v1.sqrt() + 4.0 * u * v1.sqrt() } else { bv.sqrt() };
                         lx.check(sd1 == fsd[j] || (sd1 - fsd[j]).abs() <= bsd || (sd1.is_nan() && fsd[j].is_nan()), "C18/weighted-std-axis-vs-lane", || format!("weighted_std_axis(ddof {}) lane {} = {:e} but weighted_std of the lane = {:e}: {:?}", ddof, j, fsd[j], sd1, c));
-                        let bit_equal = s1.to_bits() == fs[j].to_bits() && m1.to_bits() == fm[j].to_bits() && v1.to_bits() == fv[j].to_bits() && sd1.to_bits() == fsd[j].to_bits();
+                        // "equals": the per-axis forms fold each lane exactly as the whole-array routine does, so the
+                        // results are the same floating-point number (a NaN for a NaN), not merely close
+                        let eqf = |a: f64, b: f64| a.to_bits() == b.to_bits() || (a.is_nan() && b.is_nan()) || a == b;
+                        let bit_equal = eqf(s1, fs[j]) && eqf(m1, fm[j]) && eqf(v1, fv[j]) && eqf(sd1, fsd[j]);
+                        lx.check(bit_equal, "C18/axis-form-not-identical-to-lane-routine", || format!("(sum, mean, var, std) per axis, lane {} = ({:e}, {:e}, {:e}, {:e}) but the whole-array routines on the lane give ({:e}, {:e}, {:e}, {:e}) (ddof {}): {:?}", j, fs[j], fm[j], fv[j], fsd[j], s1, m1, v1, sd1, ddof, c));
                         lx.count(if bit_equal { "float_axis_results_bit_equal_to_lane_routine" } else { "float_axis_results_not_bit_equal_to_lane_routine" }, 1);
                         obs.push(fv[j].to_bits());
                     }
